@@ -1930,6 +1930,57 @@ def _rule3(ctx, rep):
         )
 
 
+def _rule4(ctx, rep):
+    """every node owns its work sets (added after seeded change C15-5: build() created the two initial todo sets once,
+    before the loop, and gave the same object to every located node; handing out the first job emptied the todo of
+    every other bumped algorithm)"""
+    from .. import wsa
+
+    prog = ctx.prog
+    with rep.rule(
+        'R-C15-4',
+        'no aliasing of work sets: every assignment of a todo / doing / do attribute stores a container constructed in that very statement (constructor call or literal), so no two nodes share one set',
+        floor=3,
+        breaks='two nodes share one todo object: releasing or completing a target of one node silently removes it from the other, whose new version is then never run for that target',
+    ) as r:
+        for op in wsa.all_ops(prog):
+            if op.op != 'assign' or op.kind not in wsa.KINDS:
+                continue
+            rep.analysed(op.func)
+            r.instance()
+            v = op.args[0]
+
+            def fresh(e):
+                if isinstance(e, (ast.List, ast.Set, ast.Dict, ast.ListComp, ast.SetComp)):
+                    return True
+                if isinstance(e, ast.IfExp):
+                    return fresh(e.body) and fresh(e.orelse)
+                if isinstance(e, ast.Call):
+                    q = prog.resolve_in(e.func, op.func) or ''
+                    name = q.replace('external:', '').rsplit('.', 1)[-1] if q else (call_name(e) or '')
+                    return name in ('Unique', 'set', 'list', 'frozenset', 'deque', 'copy', 'deepcopy') or q in prog.classes
+                if isinstance(e, ast.Name):
+                    # a local constructed once per node: every definition is fresh and sits in the innermost loop
+                    # (or, without a loop, the function) that contains the assignment
+                    defs = [d for d in op.func.own_nodes() if isinstance(d, ast.Assign) and any(isinstance(t, ast.Name) and t.id == e.id for t in d.targets)]
+                    loops = [l for l in op.func.own_nodes() if isinstance(l, (ast.For, ast.While)) and any(x is op.node for b in l.body for x in ast.walk(b))]
+                    inner = None
+                    for l in loops:
+                        if inner is None or any(x is l for b in inner.body for x in ast.walk(b)):
+                            inner = l
+                    scope = [x for b in (inner.body if inner is not None else op.func.node.body) for x in ast.walk(b)]
+                    return bool(defs) and all(fresh(d.value) and any(x is d for x in scope) for d in defs)
+                return False
+
+            r.check(
+                fresh(v),
+                f'{op.func.qname}:{norm(op.node)[:80]}:fresh',
+                op.where,
+                f'{norm(v)[:60]} is constructed in the assignment',
+                f'{op.func.qname}: {norm(op.node)[:100]} stores an object that exists outside this statement ({norm(v)[:60]}): every node that receives it shares one work set',
+            )
+
+
 def check(ctx):
     rep = Report(
         PID,
@@ -1955,6 +2006,7 @@ def check(ctx):
     _rule1(ctx, rep)
     _rule2(ctx, rep)
     _rule3(ctx, rep)
+    _rule4(ctx, rep)
     return rep
 
 
@@ -1963,6 +2015,8 @@ _S = 'pl/schedule.py'
 _PV = 'pl/version.py'
 
 VARIANTS = [
+    V('build shares one initial todo set between nodes', 'B', 'pl/schedule.py', 'build', "dawgie.util.fifo.Unique(\n                        ['__all__'] if _is_asp(n) else trglist\n                    ),", 'trglist,', 'R-C15-4'),
+    V('build constructs the set in either arm', 'N', 'pl/schedule.py', 'build', "dawgie.util.fifo.Unique(\n                        ['__all__'] if _is_asp(n) else trglist\n                    ),", "dawgie.util.fifo.Unique(['__all__']) if _is_asp(n) else dawgie.util.fifo.Unique(trglist),", None),
     # ---- R-C15-1
     V('__gt__ as __ge__ and __eq__', 'B', _I, 'Version.__gt__', 'self.__ge__(other) and self.__ne__(other)', 'self.__ge__(other) and self.__eq__(other)', 'R-C15-1'),
     V('__le__ compares bug fix with <', 'B', _I, 'Version.__le__', 'return self.bugfix() <= other.bugfix()', 'return self.bugfix() < other.bugfix()', 'R-C15-1'),
